@@ -16,6 +16,7 @@ mod c09;
 mod c10;
 mod c11;
 mod c14;
+mod c15;
 mod c16;
 mod c18;
 pub mod util;
@@ -73,6 +74,7 @@ fn run_lines() {
             "crash" => c06::crash(&mut t),
             "sub" => c11::sub(&mut t),
             "upd" => c14::upd(&mut t),
+            "schema" => c15::schema(&mut t),
             "ltx" => c07::ltx(&mut t),
             "ctx" => c07::ctx(&mut t),
             "partners" => c16::partners(&mut t),
